@@ -34,12 +34,23 @@ static void on_deadlock(void) {
 }
 
 static int P_, J_, ordered_, NC_;
+/* ordered: 0 every client dispatches unordered jobs, 1 ordered jobs, 2 mixed: client 1 ordered (as a writer), the others
+ * unordered (as sorters) - workers move between the two kinds of job */
+static bool ord_of(int ordered, int c) { return ordered == 2 ? c == 0 : ordered != 0; }
+static const char *ordc_json(int ordered, int nc) {
+	static char buf[64];
+	size_t n = 0;
+	buf[n++] = '[';
+	for (int c = 0; c < nc; c++) if (ord_of(ordered, c)) n += (size_t)snprintf(buf + n, sizeof buf - n, "%s%d", n > 1 ? "," : "", c + 1);
+	buf[n++] = ']'; buf[n] = 0;
+	return buf;
+}
 static long nruns_total;
 
 /* one complete pool life cycle under the current scheduler configuration; returns the number of steps */
 static int life_cycle(long r, unsigned long seed, int sp, bool systematic) {
 	cur_run = r;
-	fprintf(out, "{\"e\":\"Reset\",\"x\":%ld}\n{\"e\":\"Cfg\",\"max\":%d,\"jobs\":%d,\"ordered\":%s,\"clients\":%d,\"seed\":%lu}\n", r, P_, J_, ordered_ ? "true" : "false", NC_, seed);
+	fprintf(out, "{\"e\":\"Reset\",\"x\":%ld}\n{\"e\":\"Cfg\",\"max\":%d,\"jobs\":%d,\"ordered\":%d,\"ordc\":%s,\"clients\":%d,\"seed\":%lu}\n", r, P_, J_, ordered_, ordc_json(ordered_, NC_), NC_, seed);
 	vs_begin(seed, systematic ? 0 : sp);
 	struct threadpool *pool = threadpool_init((size_t)P_);
 	struct result_handler *rh[4];
@@ -48,7 +59,7 @@ static int life_cycle(long r, unsigned long seed, int sp, bool systematic) {
 		for (int c = 0; c < NC_; c++) {
 			long id = (c + 1) * 100 + j;
 			fprintf(out, "{\"e\":\"Dispatch\",\"j\":%ld,\"c\":%d}\n", id, c + 1);
-			threadpool_dispatch(pool, rh[c], ordered_, job, (void *)id);
+			threadpool_dispatch(pool, rh[c], ord_of(ordered_, c), job, (void *)id);
 		}
 	for (int c = 0; c < NC_; c++) {
 		result_handler_destroy(&rh[c]);
@@ -130,7 +141,7 @@ int main(int argc, char **argv) {
 	(void)dummy;
 	for (long r = 0; r < runs; r++) {
 		cur_run = r;
-		fprintf(out, "{\"e\":\"Reset\",\"x\":%ld}\n{\"e\":\"Cfg\",\"max\":%d,\"jobs\":%d,\"ordered\":%s,\"clients\":%d,\"seed\":%lu}\n", r, P, J, ordered ? "true" : "false", NC, seed0 + (unsigned long)r);
+		fprintf(out, "{\"e\":\"Reset\",\"x\":%ld}\n{\"e\":\"Cfg\",\"max\":%d,\"jobs\":%d,\"ordered\":%d,\"ordc\":%s,\"clients\":%d,\"seed\":%lu}\n", r, P, J, ordered, ordc_json(ordered, NC), NC, seed0 + (unsigned long)r);
 		vs_config(mode, 1, npre, 40 + 25L * J * NC, seed0 + (unsigned long)r);
 		vs_begin(seed0 + (unsigned long)r, sp);
 		struct threadpool *pool = threadpool_init((size_t)P);
@@ -140,7 +151,7 @@ int main(int argc, char **argv) {
 			for (int c = 0; c < NC; c++) {
 				long id = (c + 1) * 100 + j;
 				fprintf(out, "{\"e\":\"Dispatch\",\"j\":%ld,\"c\":%d}\n", id, c + 1);      /* submission = the call */
-				threadpool_dispatch(pool, rh[c], ordered, job, (void *)id);
+				threadpool_dispatch(pool, rh[c], ord_of(ordered, c), job, (void *)id);
 			}
 		for (int c = 0; c < NC; c++) {
 			result_handler_destroy(&rh[c]);
